@@ -1,13 +1,12 @@
 """C06 - tank volumes integrate their net inflow and stay within their limits."""
-from hypothesis import strategies as st
-
 from ..outcome import fail, inconclusive, passed
 from ..refs import c05_tankgen as G
 
 ID = 'C06'
 LEVEL = 'exploration'
-CASES = {'quick': 400, 'thorough': 6000}
-CASE_TIMEOUT = 30
+CASES = {'quick': 320, 'thorough': 6000}
+CASE_TIMEOUT = 20
+SHRINK_BUDGET = {'quick': 40, 'thorough': 240}
 TECHNIQUE = ('property-based testing (Hypothesis): generated tank networks simulated with WNTRSimulator (report step '
              'ALL); every pair of consecutive reported rows is checked against an own Euler/volume reference '
              '(conservation oracle written from the statement, volume curve interpolated by own code)')
